@@ -19,16 +19,18 @@ EXTENDS Naturals, Sequences, FiniteSets, TLC
 
 CONSTANTS MaxDecls, MaxUsings
 
-Scopes == 1..4                       \* 1 = ::, 2 = A, 3 = A::B, 4 = N
-Parent == <<0, 1, 2, 1>>
-ScopeName == <<"", "A", "A::B", "N">>
+Scopes == 1..6                       \* 1 = ::, 2 = A, 3 = A::B, 4 = N, 5 = struct C in ::, 6 = struct D in A
+NsScopes == 1..4                     \* namespaces (using-directives, using-declarations, aliases live here)
+ClassScopes == {5, 6}                \* classes: may declare a nested struct T and the referencing member function
+Parent == <<0, 1, 2, 1, 1, 2>>
+ScopeName == <<"", "A", "A::B", "N", "C", "A::D">>
 RECURSIVE Chain(_)
 Chain(s) == IF s = 0 THEN <<>> ELSE <<s>> \o Chain(Parent[s])     \* innermost first
 AncSet(s) == {Chain(s)[i] : i \in 1..Len(Chain(s))}
 RECURSIVE LCA(_, _)
 LCA(a, b) == IF a \in AncSet(b) THEN a ELSE LCA(Parent[a], b)
 
-Spellings == {"T", "::T", "A::T", "A::B::T", "N::T", "B::T", "AL::T"}
+Spellings == {"T", "::T", "A::T", "A::B::T", "N::T", "B::T", "AL::T", "C::T", "A::D::T", "D::T"}
 
 VARIABLES items,      \* sequence of [k, s, q]; a decl's entity id is its position
           ref         \* <<>> or <<scope, spelling>>
@@ -83,6 +85,9 @@ ResolveU(s, sp, u, v) ==
     [] sp = "A::B::T" -> QualSet(3, {}, u)
     [] sp = "N::T" -> QualSet(4, {}, u)
     [] sp = "B::T" -> IF 2 \in AncSet(s) THEN QualSet(3, {}, u) ELSE {}      \* B is visible only inside A
+    [] sp = "C::T" -> QualSet(5, {}, u)
+    [] sp = "A::D::T" -> QualSet(6, {}, u)
+    [] sp = "D::T" -> IF 2 \in AncSet(s) THEN QualSet(6, {}, u) ELSE {}      \* D is visible only inside A
     [] sp = "AL::T" -> IF Cardinality(AliasTargets(s)) = 1
                          THEN QualSet(CHOOSE q \in AliasTargets(s) : TRUE, {}, u) ELSE {}
 Resolve(s, sp) == ResolveU(s, sp, TRUE, TRUE)
@@ -97,20 +102,20 @@ AddDecl(s) ==
   /\ UNCHANGED ref
 
 AddUDecl(s, q) ==
-  /\ ref = <<>> /\ NUse < MaxUsings /\ s # q
+  /\ ref = <<>> /\ NUse < MaxUsings /\ s # q /\ s \in NsScopes /\ q \in NsScopes   \* (a class member cannot be named by a namespace-scope using-declaration)
   /\ DirectIn(s) = {} /\ UDeclEnts(s) = {}
   /\ Cardinality(QualSet(q, {}, TRUE)) = 1                   \* using q::T must name exactly one entity
   /\ items' = Append(items, [k |-> "udecl", s |-> s, q |-> q, e |-> CHOOSE x \in QualSet(q, {}, TRUE) : TRUE])
   /\ UNCHANGED ref
 
 AddUDir(s, q) ==
-  /\ ref = <<>> /\ NUse < MaxUsings /\ s # q /\ q \notin DirsIn(s)
+  /\ ref = <<>> /\ NUse < MaxUsings /\ s # q /\ q \notin DirsIn(s) /\ s \in NsScopes /\ q \in NsScopes
   /\ q \notin AncSet(s)                                \* a directive naming an enclosing namespace adds nothing
   /\ items' = Append(items, [k |-> "udir", s |-> s, q |-> q, e |-> 0])
   /\ UNCHANGED ref
 
 AddAlias(s, q) ==
-  /\ ref = <<>> /\ NUse < MaxUsings
+  /\ ref = <<>> /\ NUse < MaxUsings /\ s \in NsScopes /\ q \in NsScopes
   /\ ~\E i \in 1..Len(items) : items[i].k = "alias"    \* one alias AL per program
   /\ items' = Append(items, [k |-> "alias", s |-> s, q |-> q, e |-> 0])
   /\ UNCHANGED ref
